@@ -273,5 +273,22 @@ func (d *drv) applyAlgebra(op *Op) string {
 	if d.fingerprint() != before || other.fingerprint() != otherBefore {
 		return obsFail(failAlias)
 	}
+	// the other direction: a later change of an operand must not reach a result
+	if !self {
+		var result2 *drv
+		switch op.Name {
+		case "Inter":
+			result2 = d.inter(other)
+		case "Union":
+			result2 = d.union(other)
+		case "Diff":
+			result2 = d.difference(other)
+		}
+		r2 := result2.fingerprint()
+		other.mutate()
+		if result2.fingerprint() != r2 || d.fingerprint() != before {
+			return obsFail(failAlias)
+		}
+	}
 	return res
 }
